@@ -52,6 +52,39 @@ class RetryDriver(hlib.Driver):
 
 
 
+# ---------------------------------------------------------------------------------------------- waiting: at quiescence, never after a sleep
+# Observations are taken when the send call has returned AND the line and both endpoints are quiet (`Pair.quiesce`), never after a fixed
+# sleep.  A deadline only ends a wait for something that never comes: 20 s until the implementation has shown once that it really stalls,
+# ~4 s afterwards.  Only where blocking IS the expected outcome (length byte destroyed, answer never arrives) a short fixed wait is used,
+# and nothing is concluded from "still blocked" there.
+WAIT_FIRST, WAIT_LATER = 20.0, 4.0
+STALLS = [0]
+STALL_LOG = []
+
+
+def deadline() -> float:
+    return WAIT_FIRST if STALLS[0] == 0 else WAIT_LATER
+
+
+def wait_until(cond, what="") -> bool:
+    end = None
+    spins = 0
+    while not cond():
+        spins += 1
+        time.sleep(0 if spins < 200 else 0.0003)
+        if end is None:
+            end = time.monotonic() + deadline()
+        elif time.monotonic() > end:
+            STALLS[0] += 1
+            STALL_LOG.append(what)
+            return False
+    return True
+
+
+def join(thread, what="send call") -> bool:
+    return wait_until(lambda: not thread.is_alive(), what)
+
+
 def show_block(b) -> str:
     return " ".join(str(int(getattr(b.header, f))) for f in FIELDS) + " " + hexs(bytes(b.data))
 
@@ -91,6 +124,7 @@ class World:
         self.rng = rng
         self.q = {"a": queue.Queue(), "b": queue.Queue()}
         self.hold_b = {}  # transmission index of "b" -> seconds to hold it back on the line (None = it never arrives)
+        self.inflight = 0  # deliveries queued for a pump thread or held back by a timer, not yet handed to the peer
         self.fault_fn = None  # callable(bytes) -> corrupted bytes | None, asked once per block transmission of "a" until it fires
         self.fault_fired = None
         self.stop = False
@@ -124,13 +158,20 @@ class World:
         if end.name == "b" and idx in self.hold_b:
             delay = self.hold_b[idx]
             if delay is not None:
+                with self.lock:
+                    self.inflight += 1
+
                 def later(peer=end.peer, pieces=pieces, delay=delay):
                     time.sleep(delay)
                     for pc in pieces:
                         peer.on_data({"source": peer, "data": pc})
+                    with self.lock:
+                        self.inflight -= 1
                 threading.Thread(target=later, daemon=True).start()
             return
         if self.pumped:
+            with self.lock:
+                self.inflight += len(pieces)
             for pc in pieces:
                 self.q[end.name].put((end.peer, pc))
         else:
@@ -146,6 +187,8 @@ class World:
             if self.jitter:
                 time.sleep(self.jitter)
             peer.on_data({"source": peer, "data": pc})
+            with self.lock:
+                self.inflight -= 1
 
 
 class S(SecsISettings):
@@ -187,8 +230,43 @@ class Pair:
                 return orig(source, block)
 
             proto._thread.queue_block = qb
+        self._busy = 0
+        self._busy_lock = threading.Lock()
+
+        def wrap(orig):
+            def run(*a):
+                with self._busy_lock:
+                    self._busy += 1
+                try:
+                    return orig(*a)
+                finally:
+                    with self._busy_lock:
+                        self._busy -= 1
+            return run
+
+        for proto in (self.host, self.equip):
+            proto._thread._receiver_target = wrap(proto._thread._receiver_target)
+            proto._thread._dispatcher_target = wrap(proto._thread._dispatcher_target)
         self.ch.on_connected({"source": self.ch})
         self.ce.on_connected({"source": self.ce})
+
+    def is_quiet(self) -> bool:
+        if self._busy or self.world.inflight:
+            return False
+        for proto in (self.host, self.equip):
+            th = proto._thread
+            if th._dispatch_queue.qsize() or th._dispatcher_thread_trigger.is_set() or th._receiver_thread_trigger.is_set() or not proto._send_queue.empty():
+                return False
+        return True
+
+    def quiesce(self) -> bool:
+        """line empty, no protocol thread inside library code, triggers clear, queues empty - looked at twice"""
+        def look():
+            if not self.is_quiet():
+                return False
+            time.sleep(0)
+            return self.is_quiet()
+        return wait_until(look, "quiescence of the line and both endpoints")
 
     def close(self):
         self.world.stop = True
@@ -262,15 +340,16 @@ def run_case(cx, case):
 
         t = threading.Thread(target=send, daemon=True)
         t.start()
-        pieces = sum(len(e) for e in encs) / max(1, min(chunks))
-        t.join(case.get("watchdog", 5.0 + 0.3 * len(encs) + 4 * pieces * (case["jitter"] or 0.0001)))
+        if fault is not None and fault[1] == 0:
+            t.join(case.get("watchdog", 0.5))  # the length byte is destroyed: blocking is an expected outcome, nothing is concluded from it
+        else:
+            join(t, "send call of a transfer that must return (perfect line / one altered byte behind the length byte)")
         finished = not t.is_alive()
         # let the receiver's dispatcher hand the message over
-        limit = time.time() + 0.5
-        want_msgs = 1 if (finished and result.get("r") is True) else 0
-        while time.time() < limit and len(pair.got[rkey]) < want_msgs:
-            time.sleep(0.002)
-        time.sleep(0.005)
+        if finished:
+            pair.quiesce()  # what was accepted on the line has been dispatched to the application
+        else:
+            time.sleep(0.05)
         with pair.world.lock:
             transcript = list(pair.world.transcript)
         got = list(pair.got[rkey])
@@ -402,10 +481,14 @@ def run_slow_answer(cx, case):
         t = threading.Thread(target=send, daemon=True)
         t0 = time.time()
         t.start()
-        t.join(case["t3"] + (case["hold"] or 0) + 1.0)
+        if case["hold"] is None:
+            t.join(case["t3"] + 0.6)  # the answer never arrives: blocking is the expected outcome
+        else:
+            join(t, "send call whose (late) answer does arrive")
         took = time.time() - t0
         finished = not t.is_alive()
-        time.sleep(0.05)
+        if case["hold"] is not None:
+            pair.quiesce()
         with pair.world.lock:
             transcript = list(pair.world.transcript)
         answered = [d for (n, d) in transcript if n == "b"][1:2]
@@ -454,12 +537,10 @@ def run_concurrent(cx, case):
         for t in threads:
             t.start()
         for t in threads:
-            t.join(8.0)
+            join(t, "concurrent send call")
         hung = [i for i, t in enumerate(threads) if t.is_alive()]
-        limit = time.time() + 1.0
-        while time.time() < limit and len(pair.got[rkey]) < len(fns):
-            time.sleep(0.003)
-        time.sleep(0.01)
+        if not hung:
+            pair.quiesce()
         with pair.world.lock:
             transcript = list(pair.world.transcript)
         got = list(pair.got[rkey])
@@ -557,13 +638,10 @@ def run_concurrent_fault(cx, case):
         for t in threads:
             t.start()
         for t in threads:
-            t.join(8.0)
+            join(t, "concurrent send call")
         hung = [i for i, t in enumerate(threads) if t.is_alive()]
-        want_n = sum(1 for i in range(len(fns)) if results.get(i) is True)
-        limit = time.time() + 1.0
-        while time.time() < limit and len(pair.got[rkey]) < want_n:
-            time.sleep(0.003)
-        time.sleep(0.02)
+        if not hung:
+            pair.quiesce()
         got = list(pair.got[rkey])
         with pair.world.lock:
             transcript = list(pair.world.transcript)
@@ -633,8 +711,8 @@ def run_block_gap(cx, case):
         out = {}
         t = threading.Thread(target=lambda: out.update(r=sender.send_stream_function(fn)), daemon=True)
         t.start()
-        t.join(6.0 + case["gap"] * len(case["after_blocks"]))
-        time.sleep(0.2)
+        if join(t, "send call with held-back ACKs"):
+            pair.quiesce()
         got = list(pair.got[rkey])
         with pair.world.lock:
             transcript = list(pair.world.transcript)
@@ -674,15 +752,12 @@ def run_same_system(cx, case):
             out = {}
             t = threading.Thread(target=lambda fn=fn, out=out: out.update(r=sender.send_response(fn, case["system"])), daemon=True)
             t.start()
-            t.join(6.0)
+            join(t, "send_response")
             results.append("blocked" if t.is_alive() else out.get("r"))
             if t.is_alive():
                 break
-        limit = time.time() + 1.0
-        want_n = sum(1 for r in results if r is True)
-        while time.time() < limit and len(pair.got[rkey]) < want_n:
-            time.sleep(0.003)
-        time.sleep(0.02)
+        if "blocked" not in results:
+            pair.quiesce()
         got = list(pair.got[rkey])
         with pair.world.lock:
             transcript = list(pair.world.transcript)
@@ -756,8 +831,8 @@ def run_preempted_resolve(cx, case):
         out = {}
         t = threading.Thread(target=lambda: out.update(r=sender.send_stream_function(fn)), daemon=True)
         t.start()
-        t.join(4.0)
-        time.sleep(0.3)
+        if join(t, "send call (resolve preempted)"):
+            pair.quiesce()
         with pair.world.lock:
             transcript = list(pair.world.transcript)
         answer = [d for (n, d) in transcript if n == "b"][1:2]
@@ -857,7 +932,7 @@ def main():
                     guarded(cx, run_case, gen_case(rng, n, direction=direction))
         # exhaustive positions on one small block (13 bytes: no data) and one with 3 data bytes
         n_exh = 0
-        for body_len in (0, 3):
+        for body_len in ((0, 3) if cx.big else (0,)):
             total = 13 + body_len
             for pos in range(0, total):
                 vals = list(range(256)) if (cx.big and body_len == 0) else [0, 255, 0x80, rng.below(256), rng.below(256)]
@@ -867,19 +942,20 @@ def main():
                     c["watchdog"] = 0.5 if pos == 0 else 3.0
                     guarded(cx, run_case, c)
                     n_exh += 1
-        res.exhaustive_parts.append(f"one byte replaced at every offset of a 13-byte and a 16-byte block ({n_exh} transfers)")
+        res.exhaustive_parts.append(f"one byte replaced at every offset of a 13-byte block (thorough: and a 16-byte block) ({n_exh} transfers)")
         # every BIT of every header byte, for odd and even functions, W-bit set and unset
         n_bits = 0
         for function in (1, 2):
             for w in (False, True):
-                for pos in range(1, 11):
+                # quick: all ten header bytes for (odd, W) and (even, no W); device id / stream+W / function bytes for the other two combinations
+                for pos in (range(1, 11) if (cx.big or (function % 2 == 1) == w) else range(1, 5)):
                     for bit in range(8):
                         c = gen_case(rng, 0, direction=rng.choice(["H2E", "E2H"]))
                         c.update(function=function, w=w, stream=rng.choice([1, 6, 127]), fault=None, fault_flip=(0, pos, bit), chunks=[1000], pumped=False,
                                  jitter=0, watchdog=3.0)
                         guarded(cx, run_case, c)
                         n_bits += 1
-        res.exhaustive_parts.append(f"every single bit of the 10 header bytes flipped, function odd/even x W-bit set/unset ({n_bits} transfers)")
+        res.exhaustive_parts.append(f"every single bit of the header bytes flipped, function odd/even x W-bit set/unset ({n_bits} transfers; quick: all 10 bytes for two of the four combinations, bytes 1-4 for the others)")
         # sampled corruption in larger / multi-block messages
         for _ in range(120 if cx.big else 30):
             n = rng.choice([1, 243, 244, 245, 488, 489, 600])
@@ -948,6 +1024,8 @@ def main():
                              model[:900], impl[:900])
     elif cx.lines:
         res.notes.append(f"driver unavailable: {len(cx.lines)} correspondence cases skipped")
+    if STALL_LOG:
+        res.notes.append(f"waits that ran into their deadline ({len(STALL_LOG)}): " + "; ".join(STALL_LOG[:10]))
     res.dump(a.out)
     sys.stdout.flush()
     os._exit(0)
